@@ -92,6 +92,58 @@ extern "C" int LLVMFuzzerTestOneInput(const uint8_t * data, size_t size)
         if (in.eof()) break;
       }
     }
+    if (pdf) {
+      // the loader's own predicate for the p.d.f. file it has just accepted: no probability on a node whose two energies sum to more
+      // than the maximum energy sum (the file is walked the way the loader walks it, the node energies are computed as it computes them)
+      std::istringstream in(std::string((const char *)data, size));
+      int seen = 0, row = 0;
+      double esum = 0, emin = 0, emax = 0, stp = 0;
+      unsigned int n = 0;
+      bool usable = true, forbidden_positive = false, shape_ok = true;
+      while (in && usable) {
+        std::string raw;
+        std::getline(in, raw);
+        if (raw.empty()) continue;
+        // only files whose layout leaves no doubt about which node a value belongs to: no comment, no line starting with white space
+        if (raw[0] == '#') continue;
+        if (raw.find('#') != std::string::npos || std::isspace((unsigned char)raw[0])) {
+          usable = false;
+          break;
+        }
+        std::istringstream li(raw);
+        if (seen == 0) {
+          li >> esum;
+          usable = (bool)li;
+        } else if (seen == 1) {
+          std::string lab;
+          li >> lab >> emin >> emax >> stp >> n;
+          usable = (bool)li && n >= 2 && n <= 100000;
+          stp = (emax - emin) / (n - 1);
+        } else {
+          double e1 = emin + row * stp;
+          int j = 0;
+          while (li && !li.eof()) {
+            std::string w;
+            li >> w;
+            std::istringstream wi(w);
+            double p = 0;
+            wi >> p;
+            if (!wi) break;
+            double e2 = emin + j * stp;
+            if (e1 + e2 > esum && p > 0.0) forbidden_positive = true;
+            j++;
+            li >> std::ws;
+          }
+          if ((unsigned int)j != n - (unsigned int)row) shape_ok = false;
+          row++;
+        }
+        seen++;
+        in >> std::ws;
+        if (in.eof()) break;
+      }
+      if (usable && shape_ok && (unsigned int)row == n && forbidden_positive)
+        FZ_VIOLATION("the loader accepted a p.d.f. table with probability on a node beyond the maximum energy sum (its own rule: 'should be zero')");
+    }
     if (pdf && roomy) {
       // a p.d.f. table that was accepted must be able to produce an event: with the third deviate of every try at 1e-300 a
       // candidate is accepted as soon as the interpolated density is non-zero, which a table with one positive node offers on
